@@ -1,4 +1,166 @@
-(* placeholder until the theorems are in place *)
-From GR Require Import Base Resp Redis.
-Theorem C12_placeholder : True. Proof. exact I. Qed.
-Print Assumptions C12_placeholder.
+(* C12 — commands the framework implements itself follow Redis semantics.  Property theorems only.
+   The derived executors of Exec.v (the same definitions that are compared with the Go code) are run over the Redis
+   reference primitives of ONE database (Redis.dprim; `dhandle`): `run x c args d` is the final database and the
+   result.  Every statement is for ALL databases d and ALL argument values; `c` is any authorized connection state. *)
+From Coq Require Import String.
+From GR Require Import Base BaseFacts Resp Handler Exec Conn Redis SugarFacts.
+Open Scope Z_scope.
+
+Section C12.
+  Variable c : cstate.
+  Hypothesis Hau : cs_auth c = true.
+  Notation X x := (x db dhandle).
+  (* the lemma, with or without the authorization hypothesis it happens to need *)
+  Ltac use L := first [exact (L c Hau) | exact (L c)].
+
+  (* GETRANGE / SUBSTR: Redis' index clamping for EVERY length, start and end (all of int64): never a panic (the
+     result is `Some`), the reply is redis_getrange — negative indexes from the end, clamped into the value, inverted
+     or empty ranges give "" — a missing key gives "", the database is untouched *)
+  Theorem C12_getrange : forall d k st en, in64 st = true -> in64 en = true ->
+    runP (X x_GETRANGE) c [bulk k; bulk (itoa st); bulk (itoa en)] d =
+    Some (d, match aget d k with
+             | Some (VStr v) => x_ok (bulk (redis_getrange v st en))
+             | None => x_ok (bulk [])
+             | Some _ => {| x_msg := None; x_err := x_err (x_of wrongtype) |}
+             end).
+  Proof. use getrange_spec. Qed.
+
+  (* ZREVRANGE: exactly the slice [start, stop] of the members in descending order, member/score pairs intact *)
+  Theorem C12_zrevrange : forall (d : db) k st en (ws : bool) z, in64 st = true -> in64 en = true -> aget d k = Some (VZSet z) ->
+    run (X x_ZREVRANGE) c ([bulk k; bulk (itoa st); bulk (itoa en)] ++ (if ws then [bulk (B"WITHSCORES")] else [])) d =
+    (d, x_of (zreply ws (slice (rev z) (lenZ z) st en))).
+  Proof. use zrevrange_spec. Qed.
+
+  (* counters: the stored value must be a canonical int64 numeral (missing = 0) and the sum must stay inside int64;
+     then value and reply are old + delta; otherwise an error and NOTHING is stored *)
+  Theorem C12_counters : forall d k delta, in64 delta = true ->
+    (let (r, es) := incdec db dhandle c k delta {| e_hs := d; e_evs := [] |} in (e_hs _ es, r)) =
+    match counter_value d k with
+    | Some cv => if in64 (cv + delta) then (aset d k (VStr (itoa (cv + delta))), x_ok (int_msg (cv + delta))) else (d, x_fw)
+    | None => (d, match aget d k with Some (VStr _) => x_fw | _ => {| x_msg := None; x_err := x_err (x_of wrongtype) |} end)
+    end.
+  Proof. use incdec_spec. Qed.
+  Theorem C12_incr : forall d k, run (X x_INCR) c [bulk k] d = (let (r, es) := incdec db dhandle c k 1 {| e_hs := d; e_evs := [] |} in (e_hs _ es, r)).
+  Proof. use incr_spec. Qed.
+  Theorem C12_decr : forall d k, run (X x_DECR) c [bulk k] d = (let (r, es) := incdec db dhandle c k (-1) {| e_hs := d; e_evs := [] |} in (e_hs _ es, r)).
+  Proof. use decr_spec. Qed.
+  Theorem C12_incrby : forall d k n, in64 n = true -> run (X x_INCRBY) c [bulk k; bulk (itoa n)] d =
+    (let (r, es) := incdec db dhandle c k n {| e_hs := d; e_evs := [] |} in (e_hs _ es, r)).
+  Proof. use incrby_spec. Qed.
+  Theorem C12_decrby : forall d k n, in64 n = true -> run (X x_DECRBY) c [bulk k; bulk (itoa n)] d =
+    if n =? min64 then (d, x_fw) else (let (r, es) := incdec db dhandle c k (- n) {| e_hs := d; e_evs := [] |} in (e_hs _ es, r)).
+  Proof. use decrby_spec. Qed.
+
+  (* MSETNX: all or nothing *)
+  Theorem C12_msetnx : forall (d : db) (pairs : list (bytes * bytes)), pairs <> [] ->
+    let args := flat_map (fun kv => [bulk (fst kv); bulk (snd kv)]) pairs in
+    let m := map_of_pairs pairs in
+    (Forall (fun kv => aget d (fst kv) = None) m ->
+       run (X x_MSETNX) c args d = (fold_left (fun dd kv => aset dd (fst kv) (VStr (snd kv))) m d, x_ok (int_msg 1))) /\
+    (Forall (fun kv => match aget d (fst kv) with Some (VStr _) | None => True | _ => False end) m ->
+     Exists (fun kv => aget d (fst kv) <> None) m ->
+       run (X x_MSETNX) c args d = (d, x_ok (int_msg 0))).
+  Proof. use msetnx_spec. Qed.
+
+  (* MGET: one reply element per requested key, in request order, nil for a missing key *)
+  Theorem C12_mget : forall d keys, keys <> [] -> all_strings_or_missing d keys ->
+    run (X x_MGET) c (map bulk keys) d =
+    (d, x_ok (RArr (map (fun k => match aget d k with Some (VStr v) => bulk v | _ => nil_msg end) keys))).
+  Proof. use mget_spec. Qed.
+
+  Theorem C12_strlen : forall d k, run (X x_STRLEN) c [bulk k] d =
+    (d, match aget d k with Some (VStr v) => x_ok (int_msg (lenZ v)) | None => x_ok (int_msg 0)
+                          | Some _ => {| x_msg := None; x_err := x_err (x_of wrongtype) |} end).
+  Proof. use strlen_spec. Qed.
+
+  Theorem C12_append : forall d k v, run (X x_APPEND) c [bulk k; bulk v] d =
+    match aget d k with
+    | Some (VStr old) => (aset d k (VStr (old ++ v)), x_ok (int_msg (lenZ (old ++ v))))
+    | None => (aset d k (VStr v), x_ok (int_msg (lenZ v)))
+    | Some _ => (d, {| x_msg := None; x_err := x_err (x_of wrongtype) |})
+    end.
+  Proof. use append_spec. Qed.
+
+  (* hashes: HKEYS and HVALS list fields and values of the same pairs in the same order, HLEN counts them;
+     HEXISTS / HSTRLEN look the field up *)
+  Theorem C12_hkeys_hvals_hlen : forall d k h, aget d k = Some (VHash h) ->
+    run (X x_HKEYS) c [bulk k] d = (d, x_ok (RArr (map bulk (map fst h)))) /\
+    run (X x_HVALS) c [bulk k] d = (d, x_ok (RArr (map bulk (map snd h)))) /\
+    run (X x_HLEN) c [bulk k] d = (d, x_ok (int_msg (lenZ h))).
+  Proof. use hkeys_hvals_hlen_spec. Qed.
+  Theorem C12_hash_missing : forall d k, aget d k = None ->
+    run (X x_HKEYS) c [bulk k] d = (d, x_ok (RArr [])) /\ run (X x_HVALS) c [bulk k] d = (d, x_ok (RArr [])) /\
+    run (X x_HLEN) c [bulk k] d = (d, x_ok (int_msg 0)).
+  Proof. use hkeys_missing. Qed.
+  Theorem C12_hexists_hstrlen : forall d k f,
+    run (X x_HEXISTS) c [bulk k; bulk f] d =
+    (d, match aget d k with Some (VHash h) => x_ok (int_msg (if ahas h f then 1 else 0)) | None => x_ok (int_msg 0)
+                          | Some _ => {| x_msg := None; x_err := x_err (x_of wrongtype) |} end) /\
+    run (X x_HSTRLEN) c [bulk k; bulk f] d =
+    (d, match aget d k with Some (VHash h) => x_ok (int_msg (match aget h f with Some v => lenZ v | None => 0 end)) | None => x_ok (int_msg 0)
+                          | Some _ => {| x_msg := None; x_err := x_err (x_of wrongtype) |} end).
+  Proof. use hexists_hstrlen_spec. Qed.
+
+  (* cardinalities and membership *)
+  Theorem C12_scard : forall d k, run (X x_SCARD) c [bulk k] d =
+    (d, match aget d k with Some (VSet s) => x_ok (int_msg (lenZ s)) | None => x_ok (int_msg 0)
+                          | Some _ => {| x_msg := None; x_err := x_err (x_of wrongtype) |} end).
+  Proof. use scard_spec. Qed.
+  Theorem C12_sismember : forall d k m, run (X x_SISMEMBER) c [bulk k; bulk m] d =
+    (d, match aget d k with Some (VSet s) => x_ok (int_msg (if mem m s then 1 else 0)) | None => x_ok (int_msg 0)
+                          | Some _ => {| x_msg := None; x_err := x_err (x_of wrongtype) |} end).
+  Proof. use sismember_spec. Qed.
+  Theorem C12_zcard : forall d k, run (X x_ZCARD) c [bulk k] d =
+    (d, match aget d k with Some (VZSet z) => x_ok (int_msg (lenZ z)) | None => x_ok (int_msg 0)
+                          | Some _ => {| x_msg := None; x_err := x_err (x_of wrongtype) |} end).
+  Proof. use zcard_spec. Qed.
+End C12.
+
+(* PING, ECHO; CONFIG GET returns, in request order, the values last stored with CONFIG SET *)
+Theorem C12_ping : x_PING [] = x_ok (RStatus (B"PONG")) /\ forall m, m <> [] -> x_PING [bulk m] = x_ok (bulk m).
+Proof. exact ping_spec. Qed.
+Theorem C12_echo : forall m, x_ECHO [bulk m] = x_ok (bulk m).
+Proof. exact echo_spec. Qed.
+Theorem C12_config_set_get : forall ss k v,
+  let ss' := snd (x_CONFIG ss [bulk (B"SET"); bulk k; bulk v]) in
+  fst (x_CONFIG ss [bulk (B"SET"); bulk k; bulk v]) = x_ok ok_msg /\
+  cfg_get (ss_config ss') k = Some v /\
+  (forall k2, bytes_eqb k2 k = false -> cfg_get (ss_config ss') k2 = cfg_get (ss_config ss) k2).
+Proof. exact config_set_get. Qed.
+Theorem C12_config_get_order : forall ss keys, keys <> [] ->
+  x_CONFIG ss (bulk (B"GET") :: map bulk keys) =
+  (x_ok (RArr (flat_map (fun k => [bulk k; bulk (match cfg_get (ss_config ss) k with Some v => v | None => [] end)]) keys)), ss).
+Proof. exact config_get_order. Qed.
+
+Print Assumptions C12_getrange.
+Print Assumptions C12_zrevrange.
+Print Assumptions C12_counters.
+Print Assumptions C12_incr.
+Print Assumptions C12_decr.
+Print Assumptions C12_incrby.
+Print Assumptions C12_decrby.
+Print Assumptions C12_msetnx.
+Print Assumptions C12_mget.
+Print Assumptions C12_strlen.
+Print Assumptions C12_append.
+Print Assumptions C12_hkeys_hvals_hlen.
+Print Assumptions C12_hash_missing.
+Print Assumptions C12_hexists_hstrlen.
+Print Assumptions C12_scard.
+Print Assumptions C12_sismember.
+Print Assumptions C12_zcard.
+Print Assumptions C12_ping.
+Print Assumptions C12_echo.
+Print Assumptions C12_config_set_get.
+Print Assumptions C12_config_get_order.
+
+(* concrete values of the specification functions (the same grids the correspondence run enumerates on the implementation) *)
+Example C12_ex_getrange : redis_getrange (B"abcdef") 0 0 = B"a" /\ redis_getrange (B"abcdef") (-3) (-1) = B"def" /\ redis_getrange (B"abcdef") 5 2 = [] /\
+  redis_getrange [] 0 0 = [] /\ redis_getrange (B"abc") (-10) (-20) = [] /\ redis_getrange (B"abc") (-100) 100 = B"abc".
+Proof. vm_compute. repeat split; reflexivity. Qed.
+Example C12_ex_counter :
+  let c := {| cs_auth := true; cs_db := 0; cs_user := []; cs_pass := None; cs_tls := None |} in
+  snd (run (x_INCR db dhandle) c [bulk (B"n")] [(B"n", VStr (B"9223372036854775807"))]) = x_fw /\
+  snd (run (x_INCR db dhandle) c [bulk (B"n")] [(B"n", VStr (B"007"))]) = x_fw /\
+  run (x_INCR db dhandle) c [bulk (B"n")] [(B"n", VStr (B"41"))] = ([(B"n", VStr (B"42"))], x_ok (int_msg 42)).
+Proof. vm_compute. repeat split; reflexivity. Qed.
